@@ -59,6 +59,8 @@
 
 mod io;
 mod protocol;
+#[cfg(libp2p_verif)]
+mod verif;
 
 use std::{collections::HashSet, fmt::Write, pin::Pin};
 
